@@ -124,6 +124,6 @@ def main(tier):
 
 
 def replay(path):
-    d = json.load(open(path))
-    print(json.dumps(d, indent=1))
-    return 1
+    from ..core import replay_by_rerun
+
+    return replay_by_rerun(main, path)
